@@ -207,6 +207,7 @@ def case_st(draw):
         "cuts": cuts,
         "schedule": draw(st.lists(st.integers(0, 59), max_size=24)),
         "after_close": draw(st.sampled_from(["drop", "raise"])),
+        "peer": draw(st.sampled_from(["192.0.2.7", "192.0.2.7", "2001:db8::7", "::1", "fe80::1%eth0"])),
         "disconnect": draw(st.integers(0, 3)) == 0,
         "labels": labels,
     }
@@ -252,7 +253,7 @@ def run_proto(case: dict):
             handler = _router_with_default(handler)
         mw = srvsim.build_middleware(sim, case["middleware"])
         up = srvsim.build_upload(sim, case["upload"])
-        tr = FakeTransport(loop, after_close=case["after_close"])
+        tr = FakeTransport(loop, after_close=case["after_close"], peername=(case.get("peer", "192.0.2.7"), 40000))
         proto = GeminiServerProtocol(handler, mw, up)
         tr.attach(proto)
         end = await srvsim.drive(sim, proto, tr, chunks, case["schedule"], case["disconnect"])
@@ -424,7 +425,7 @@ def run_static(case: dict):
                         await conn.pump()
                     out.append((rq, _TlsView(conn)))
                     continue
-                tr = FakeTransport(loop)
+                tr = FakeTransport(loop, peername=(("192.0.2.7", "2001:db8::7", "::1")[len(out) % 3], 40000))
                 tr.attach(factory())
                 k = case["cuts"]
                 if k and len(data) > 3:
@@ -501,7 +502,7 @@ def run_tls(case: dict):
         up = srvsim.build_upload(sim, case["upload"])
         factory, sslctx = stacks.manual_stack(backend, handler, mw, up)
         v = ssl.TLSVersion.TLSv1_2 if case.get("tls") == "1.2" else ssl.TLSVersion.TLSv1_3
-        conn = memnet.ServerConn(loop, factory, sslctx, memnet.permissive_client_ctx(minv=v, maxv=v), auto_close=False)
+        conn = memnet.ServerConn(loop, factory, sslctx, memnet.permissive_client_ctx(minv=v, maxv=v), auto_close=False, peername=(case.get("peer", "192.0.2.7"), 40000))
         if not await conn.handshake():
             return sim, conn, {"disconnected": False, "trace": ["handshake-failed"]}
         if case.get("slow_reader"):
@@ -625,6 +626,7 @@ def _labels_tls(case, v):
 LANES = [
     Lane(
         name="static",
+        wall_limit=30.0,
         run_case=run_static,
         strategy=static_case_st,
         budget={"quick": 800, "thorough": 15000},
